@@ -319,7 +319,7 @@ func ruleC16(c *Ctx) {
 		k := view.T(supFn, sup.Key)
 		var trims []*Term
 		k.walk(func(x *Term) {
-			if x.Op == "call" && strings.HasPrefix(x.Name, "strings.Trim") {
+			if x.Op == "call" && strings.HasPrefix(x.Name, "strings.Trim") && trimsLeftSide(x) {
 				trims = append(trims, x)
 			}
 		})
@@ -328,7 +328,7 @@ func ruleC16(c *Ctx) {
 		var counterAtoms []*Term
 		for _, a := range pc.atoms() {
 			a.Atom.walk(func(t *Term) {
-				if t.Op == "call" && strings.HasPrefix(t.Name, "strings.Trim") {
+				if t.Op == "call" && strings.HasPrefix(t.Name, "strings.Trim") && trimsLeftSide(t) {
 					pcTrims = append(pcTrims, t)
 				}
 			})
@@ -487,4 +487,15 @@ func ruleC16(c *Ctx) {
 		}
 	}
 	checkScanCap(c, "SCANCAP", fs)
+}
+
+
+// trimsLeftSide: the trim can remove characters at the START of the text (where the indentation is); taking
+// the line terminator off the end (TrimSuffix(line, "\n"), TrimRight(line, "\r\n")) is not an indentation trim.
+func trimsLeftSide(t *Term) bool {
+	switch t.Name {
+	case "strings.TrimSuffix", "strings.TrimRight", "strings.TrimRightFunc":
+		return false
+	}
+	return true
 }
